@@ -1,6 +1,6 @@
 """C23 — interval arithmetic soundness: the float successor/predecessor used for strict bounds."""
 LEVEL = "proof"
-VERUS = []
+
 M = "common/rounding.rs"
 KANI = [dict(package="datafusion-common", module=M, timeout=900, harnesses=[
     dict(name="c23_next_up_f64", complete=True, what="next_up::<f64> for all 2^64 bit patterns x and all 2^64 candidates z: fixed points NaN/+inf; result >= x; no z strictly between; strict except -0.0; zero cases"),
@@ -10,7 +10,88 @@ KANI = [dict(package="datafusion-common", module=M, timeout=900, harnesses=[
     dict(name="c23_next_down_f32", complete=True, what="next_down::<f32>, all bit patterns"),
     dict(name="c23_round_trip_f32", complete=True, what="inverse pair on f32"),
 ])]
-TRUSTED = ["Kani 0.68 / CBMC 6.11 (IEEE-754 comparison semantics of CBMC's float theory)"]
+# ------------------------------------------------------------------------------------------
+# three-valued logic on truth-value sets: Interval::{and, or, not} (boolean intervals) and
+# NullableInterval::{values, and, or, not}; kani-compiler 0.68 panics on the ScalarValue code these reach (attempts/),
+# so the functions are proved in Verus over a two-variant type model of DataType / ScalarValue
+# ------------------------------------------------------------------------------------------
+FI = "datafusion/expr-common/src/interval_arithmetic.rs"
+DER = "#[derive(PartialEq, Eq, Structural, Clone, Copy)]\n"
+II = "impl Interval"
+NI = "impl NullableInterval"
+def _const(imp, name):
+    return dict(file=FI, path=[imp, "const %s" % name], wrap=imp, suffix=";")
+_GEN = [dict(rule="R3", regex=r"<T: Borrow<Self>>", replace="", count=1),
+        dict(rule="R3", regex=r"(other|rhs): T\)", replace=r"\1: &Self)", count=1),
+        dict(rule="R3", regex=r"(other|rhs)\.borrow\(\)", replace=r"\1", count="any"),
+        # ref patterns are outside the Verus subset; the model of ScalarValue is Copy, so the tuple of references is matched by value
+        dict(rule="R3", regex=r"match \(&self\.lower, &self\.upper, &rhs\.lower, &rhs\.upper\)", replace="match (self.lower, self.upper, rhs.lower, rhs.upper)", count="any"),
+        dict(rule="R3", regex=r"&ScalarValue::Boolean\(", replace="ScalarValue::Boolean(", count="any")]
+_NOTERR = [dict(rule="R9", regex=r"assert_eq_or_internal_err!\(\s*self\.data_type\(\),\s*DataType::Boolean,\s*\"[^\"]*\"\s*\);",
+                replace="if self.data_type() != DataType::Boolean { return make_err(); }", count=1)]
+VERUS = [dict(
+    name="three_valued_logic",
+    uses="use vstd::prelude::*;\n",
+    prelude="prelude_logic.rs", proofs="proofs_logic.rs", witness="witness_logic.rs", rlimit=60, min_verified=8, twins=[], std_specs=False,
+    items=[
+        dict(file=FI, path=["struct Interval"], prefix=DER),
+        dict(file=FI, path=["enum NullableInterval"], prefix=DER),
+        _const(II, "FALSE"), _const(II, "TRUE_OR_FALSE"), _const(II, "TRUE"),
+        dict(file=FI, path=[II, "fn data_type"], wrap=II, ret="r",
+             edits=[dict(rule="R5", regex=r"debug_assert!\((?:[^()]|\([^()]*\))*\);", replace="", count=1)],
+             contract="    ensures r == self.lower.spec_data_type(),"),
+        dict(file=FI, path=[II, "fn and"], wrap=II, ret="r", edits=_GEN,
+             contract="""    requires bool_iv(*self), bool_iv(*other),
+    ensures r is Ok, bool_iv(r->Ok_0), exact2(|a: int, b: int| and3(a, b), iv_mask(*self), iv_mask(*other), iv_mask(r->Ok_0)),"""),
+        dict(file=FI, path=[II, "fn or"], wrap=II, ret="r", edits=_GEN,
+             contract="""    requires bool_iv(*self), bool_iv(*other),
+    ensures r is Ok, bool_iv(r->Ok_0), exact2(|a: int, b: int| or3(a, b), iv_mask(*self), iv_mask(*other), iv_mask(r->Ok_0)),"""),
+        dict(file=FI, path=[II, "fn not"], wrap=II, ret="r", edits=_NOTERR,
+             contract="""    requires bool_iv(*self),
+    ensures r is Ok, bool_iv(r->Ok_0), exact1(iv_mask(*self), iv_mask(r->Ok_0)),""",
+             proofs=[dict(at="body_start", text="""
+        proof {
+            // the interval is one of [f,f], [f,t], [t,t]
+            let lo = self.lower->Boolean_0->Some_0; let hi = self.upper->Boolean_0->Some_0;
+            assert(self.lower == ScalarValue::Boolean(Some(lo)) && self.upper == ScalarValue::Boolean(Some(hi)));
+            assert(Self::TRUE.lower == ScalarValue::Boolean(Some(true)) && Self::TRUE.upper == ScalarValue::Boolean(Some(true)));
+            assert(Self::FALSE.lower == ScalarValue::Boolean(Some(false)) && Self::FALSE.upper == ScalarValue::Boolean(Some(false)));
+            assert((lo && hi) ==> *self == Self::TRUE);
+            assert((!lo && !hi) ==> *self == Self::FALSE);
+        }""")]),
+    ] + [_const(NI, n) for n in ("FALSE", "TRUE", "UNKNOWN", "TRUE_OR_FALSE", "TRUE_OR_UNKNOWN", "FALSE_OR_UNKNOWN", "ANY_TRUTH_VALUE")] + [
+        dict(file=FI, path=[NI, "fn values"], wrap=NI, ret="r",
+             contract="""    ensures r is None <==> *self is Null, r is Some ==> (*self matches NullableInterval::MaybeNull { values } && *r->Some_0 == values)
+                                                         || (*self matches NullableInterval::NotNull { values } && *r->Some_0 == values),"""),
+        dict(file=FI, path=[NI, "fn not"], wrap=NI, ret="r",
+             edits=[dict(rule="R9", regex=r"assert_eq_or_internal_err!\(\s*datatype,\s*&DataType::Boolean,\s*\"[^\"]*\"\s*\);",
+                         replace="if *datatype != DataType::Boolean { return make_err(); }", count=1)],
+             contract="""    requires tv(*self),
+    ensures r is Ok, tv(r->Ok_0), exact1(ni_mask(*self), ni_mask(r->Ok_0)),"""),
+        dict(file=FI, path=[NI, "fn and"], wrap=NI, ret="r", edits=_GEN,
+             contract="""    requires tv(*self), tv(*rhs),
+    ensures r is Ok, tv(r->Ok_0), exact2(|a: int, b: int| and3(a, b), ni_mask(*self), ni_mask(*rhs), ni_mask(r->Ok_0)),""",
+             proofs=[dict(at="body_start", text="""
+        proof { lemma_named_sets(); lemma_mask_determines(*self); lemma_mask_determines(*rhs); }""")]),
+        dict(file=FI, path=[NI, "fn or"], wrap=NI, ret="r", edits=_GEN,
+             contract="""    requires tv(*self), tv(*rhs),
+    ensures r is Ok, tv(r->Ok_0), exact2(|a: int, b: int| or3(a, b), ni_mask(*self), ni_mask(*rhs), ni_mask(r->Ok_0)),""",
+             proofs=[dict(at="body_start", text="""
+        proof { lemma_named_sets(); lemma_mask_determines(*self); lemma_mask_determines(*rhs); }""")]),
+    ],
+    mutants=[
+        dict(name="bool_and_upper_is_or", item="and", find="let upper = self_upper && other_upper;", replace="let upper = self_upper || other_upper;"),
+        dict(name="bool_or_lower_is_and", item="or", find="let lower = self_lower || other_lower;", replace="let lower = self_lower && other_lower;"),
+        dict(name="bool_not_of_true_is_true", item="not", find="Ok(Self::FALSE)", replace="Ok(Self::TRUE)"),
+        dict(name="nullable_and_forgets_false", item="and", find="Ok(Self::FALSE_OR_UNKNOWN)", replace="Ok(Self::UNKNOWN)"),
+        dict(name="nullable_and_forgets_unknown", item="and", find="_ => Ok(Self::MaybeNull { values }),", replace="_ => Ok(Self::NotNull { values }),"),
+        dict(name="nullable_or_tests_false", item="or", find="contains_value(ScalarValue::Boolean(Some(true)))", replace="contains_value(ScalarValue::Boolean(Some(false)))"),
+        dict(name="nullable_and_shortcut_needs_both", item="and", find="if self == &Self::FALSE || rhs == &Self::FALSE {", replace="if self == &Self::FALSE && rhs == &Self::FALSE {"),
+        dict(name="nullable_not_of_unknown_is_true", item="not", find="Ok(Self::UNKNOWN)", replace="Ok(Self::TRUE)"),
+    ],
+)]
+TRUSTED = ["Kani 0.68 / CBMC 6.11 (IEEE-754 comparison semantics of CBMC's float theory)",
+           "three_valued_logic: Verus+Z3; two-variant type model of DataType / ScalarValue (Boolean, Other) re-attached derives (R16), Borrow<Self> parameters taken as &Self and reference patterns matched by value on the Copy model (R3), ASSUMED contract of Interval::contains_value for boolean values (prelude_logic.rs)"]
 ASSUMPTIONS = ["only the bit-level successor/predecessor is within reach; interval add/sub/mul/div, cp_solver and everything through ScalarValue/Arrow kernels and the fesetround FFI are not verified"]
-NOT_COVERED = ["Interval::{add,sub,mul,div,...}", "cp_solver propagation", "alter_fp_rounding_mode (FFI fesetround)", "integer increment/decrement through ScalarValue"]
+NOT_COVERED = ["numeric Interval::{add,sub,mul,div,intersect,union,gt,lt,...}", "cp_solver propagation", "alter_fp_rounding_mode (FFI fesetround)", "integer increment/decrement through ScalarValue"]
 EXPLANATION = "A successor that skipped a representable value would let a strict bound x > c remove a feasible value during constraint propagation; the harnesses prove, for every bit pattern, that no value is skipped."
